@@ -19,6 +19,12 @@ CLAIMS['C03'] = dict(cat='proof', ref='DESIGN.md 5/C03',
 CLAIMS['C04'] = dict(cat='proof', ref='DESIGN.md 5/C04',
    text='Modular contracts on _drop_due_to_gravity, beam_aligned_unit_vectors, both angle implementations, the dispatcher and the reflectometry variant: callers are verified against callee contracts (stubs). Proved for all orientations, unit scales, f32/f64 wavelength: the vector handed to two_theta is b1 and b2+delta*e_y, phi = atan2(b2\'.e_y, b2.e_x); on the optimised path, under g.b1=0, the result is the angle between b1 and the raised beam (range + cosine definition via lemmas); dispatch guard; refusal of non-orthogonal beams; limit and ordering lemmas; frame for all alias cases.',
    note='Trusted: scipp model, atan2/cos facts, instantiation rule for the Gram identity, SMT solvers; contract preconditions (beam not parallel to gravity, raised beam non-zero); continuity inside the 1e-10 band and binned wavelength are assumptions.')
+CLAIMS['C07'] = dict(cat='proof', ref='DESIGN.md 5/C07',
+   text='Every elastic and inelastic kernel of conversion.tof and the two kernels of tof.chopper_cascade are executed symbolically for the full dtype grid {f64,f32,i64,i32} per argument with symbolic positive unit scales: SI value equals a scale-free formula (unit equivariance), output unit is the documented one, result dtype is float32 iff all data operands are float32, no exception except where scipp itself rejects int32 arithmetic. The assumed promotion table is cross-checked against real scipp on the kernels (bounded conformance).',
+   note='Trusted: scipp model (dtype promotion, to_unit, astype) -- validated boundedly by the conformance runs; SMT solvers; integer operands small enough that squares are representable.')
+CLAIMS['C08'] = dict(cat='proof', ref='DESIGN.md 5/C08',
+   text='Q-vector kernel proved equal to (2pi/lambda)(e_i-e_f) in the inverse wavelength unit for all beams/units; |Q| = scalar Q, length independence and rotation covariance are lemmas; UB = U.B entry-wise; hkl: the code inverts exactly R.UB and, by certificate identities for Cramer\'s rule, 2pi R UB hkl = Q whenever det(R UB) != 0; split/merge lossless; DimensionError iff sizes differ. Rounding of the inversion is only checked boundedly (random SO(3), cond(B) <= 1e6).',
+   note='Trusted: scipp model (matrix algebra, inv as Cramer), certificate inference rule, SMT solvers. Numerical stability for ill-conditioned B: bounded stand-in, not proved.')
 NA = {}
 checks = []
 for p in props:
